@@ -70,16 +70,26 @@ type ref struct {
 	fib       map[string]map[uint64]uint64
 	strat     map[string]string
 	cacheOn   bool
-	cache     map[string]bool // Data names admitted to the cache so far
-	lastNonce map[string]uint32
-	deadSince map[string]time.Time
-	nonceCtr  uint32
-	issued    map[uint32]key
+	cache     map[string]bool      // Data names admitted to the cache so far
+	lastNonce map[string]uint32    // per name: the latest nonce issued ("dup" repeats it)
+	deadSince map[string]time.Time // ... since when the real dead nonce list holds it
+	// only maintained when the alphabet can repeat the nonce issued BEFORE the latest one ("old"):
+	trackPrev     bool
+	prevNonce     map[string]uint32
+	deadSincePrev map[string]time.Time
+	nonceCtr      uint32
+	issued        map[uint32]key
+	dnlLife       time.Duration // configured lifetime of dead-nonce records
 }
 
 func newRef(cfg fwsim.Config) *ref {
 	r := &ref{ents: map[key]*ent{}, fib: map[string]map[uint64]uint64{}, strat: map[string]string{}, cacheOn: cfg.CsAdmit && cfg.CsServe,
-		cache: map[string]bool{}, lastNonce: map[string]uint32{}, deadSince: map[string]time.Time{}, issued: map[uint32]key{}}
+		cache: map[string]bool{}, lastNonce: map[string]uint32{}, deadSince: map[string]time.Time{}, issued: map[uint32]key{},
+		prevNonce: map[string]uint32{}, deadSincePrev: map[string]time.Time{}}
+	r.dnlLife = cfg.DnlLifetime
+	if r.dnlLife == 0 {
+		r.dnlLife = 6 * time.Second // as shipped (fwsim default)
+	}
 	r.strat["/"] = fwsim.BestRoute
 	for _, s := range cfg.Strategies {
 		r.strat[s.Prefix] = s.Strategy
@@ -297,6 +307,14 @@ func (r *ref) onInterest(in *inst, o *iOp, nonce uint32, hasNonce, dead bool, be
 	}
 
 	if hasNonce && o.nonce == "fresh" {
+		if l, ok := r.lastNonce[o.name]; ok && r.trackPrev {
+			r.prevNonce[o.name] = l
+			if t, ok := r.deadSince[o.name]; ok {
+				r.deadSincePrev[o.name] = t
+			} else {
+				delete(r.deadSincePrev, o.name)
+			}
+		}
 		r.lastNonce[o.name] = nonce
 		delete(r.deadSince, o.name)
 	}
@@ -566,7 +584,7 @@ func (r *ref) entStr(k key, now time.Time) string {
 // elapsed. A record that disappears from the name tree at any other moment (e.g. its node
 // detached while pruning a descendant) stays pending in the reference: the Interest it stands for
 // was neither satisfied nor has it expired, so loop detection and suppression still apply to it.
-func (r *ref) sync(in *inst, dataArrived bool) {
+func (r *ref) sync(in *inst, dataArrived bool) (v []report.Violation) {
 	now := in.sim.Now()
 	for k, e := range r.ents {
 		for f, rc := range e.recs {
@@ -578,13 +596,30 @@ func (r *ref) sync(in *inst, dataArrived bool) {
 			delete(r.ents, k)
 		}
 	}
-	for n, nonce := range r.lastNonce {
+	// Which nonces get recorded as dead is adopted from the real list (the property text does not
+	// say when a nonce is to be recorded); HOW LONG a record lasts is not adopted: a (name, nonce)
+	// first seen in the list at time t is recorded as dead until t + the configured lifetime, so
+	// it must still be there (an Interest repeating it must not be forwarded) at every earlier
+	// moment, whatever was reported, expired or reaped meanwhile.
+	track := func(n string, nonce uint32, since map[string]time.Time) {
 		if in.sim.DnlHas(fwsim.Name(n), nonce) {
-			if _, ok := r.deadSince[n]; !ok {
-				r.deadSince[n] = now
+			if _, ok := since[n]; !ok {
+				since[n] = now
 			}
-		} else {
-			delete(r.deadSince, n)
+			stats["dead nonce record of a repeatable nonce present"]++
+			return
 		}
+		if t, ok := since[n]; ok && now.Before(t.Add(r.dnlLife)) {
+			v = append(v, viol("C02.drop", "a (name, nonce) recorded as dead is forgotten before the configured lifetime of the dead nonce list has elapsed (forwarding thread)",
+				fmt.Sprintf("(%s, %x) was first seen in the dead nonce list %s ago and is no longer there, configured lifetime %s: an Interest repeating it would be forwarded", n, nonce, now.Sub(t), r.dnlLife)))
+		}
+		delete(since, n)
 	}
+	for n, nonce := range r.lastNonce {
+		track(n, nonce, r.deadSince)
+	}
+	for n, nonce := range r.prevNonce {
+		track(n, nonce, r.deadSincePrev)
+	}
+	return
 }
